@@ -150,13 +150,16 @@ ListStep(op) ==
     LET p == ProxList(L, op) IN
     /\ "src" \in DOMAIN op => SrcOk(op.src)          \* the argument can be constructed at all
     /\ Len(p.new) <= MaxLen
-    /\ L' = p.new
+    \* (a rejected multi-item call may leave the accepted prefix in place, as the code does, or
+    \* nothing at all: C17 speaks about acceptable arguments only)
+    /\ \/ L' = p.new
+       \/ ~p.ok /\ L' = L
     /\ IF Acceptable(op)
        THEN LET r == RefList(R, RefArgs(op)) IN
             /\ R' = r.new
             /\ ev' = [c |-> "list", op |-> op, out |-> IF p.ok THEN "ok" ELSE p.err, ret |-> p.ret, typed |-> p.typed,
                       acceptable |-> TRUE, rop |-> RefArgs(op), rout |-> IF r.ok THEN "ok" ELSE r.err, rret |-> r.ret]
-       ELSE /\ R' = (IF op.m \in {"extend", "iadd"} THEN p.new ELSE R)   \* reference follows a rejected call
+       ELSE /\ R' = L'                                                     \* reference follows a rejected call
             /\ ev' = [c |-> "list", op |-> op, out |-> IF p.ok THEN "ok" ELSE p.err, ret |-> p.ret, typed |-> p.typed,
                       acceptable |-> FALSE, rout |-> "n/a", rret |-> NoRet]
     /\ UNCHANGED <<D, RD>>
@@ -233,13 +236,14 @@ DictStep(op) ==
     LET p == ProxDict(D, op) IN
     /\ "src" \in DOMAIN op => DSrcOk(op.src) /\ (op.m = "ior" => op.src.k # "kwargs")
     /\ Len(p.new) <= MaxLen
-    /\ D' = p.new
+    /\ \/ D' = p.new
+       \/ ~p.ok /\ D' = D
     /\ IF DAcceptable(op)
        THEN LET r == RefDict(RD, DRefArgs(op)) IN
             /\ RD' = r.new
             /\ ev' = [c |-> "dict", op |-> op, out |-> IF p.ok THEN "ok" ELSE p.err, ret |-> p.ret, typed |-> p.typed,
                       acceptable |-> TRUE, rop |-> DRefArgs(op), rout |-> IF r.ok THEN "ok" ELSE r.err, rret |-> r.ret]
-       ELSE /\ RD' = p.new          \* the reference follows a call with unacceptable arguments
+       ELSE /\ RD' = D'             \* the reference follows a call with unacceptable arguments
             /\ ev' = [c |-> "dict", op |-> op, out |-> IF p.ok THEN "ok" ELSE p.err, ret |-> p.ret, typed |-> p.typed,
                       acceptable |-> FALSE, rout |-> "n/a", rret |-> NoRet]
     /\ UNCHANGED <<L, R>>
